@@ -185,4 +185,41 @@ def addrOf : List PortT → List Nat → Option Bytes
     | some p =>
       if p.hasPorts then (addrOf p.children (j :: ix)).map (subPrefix p.name ++ ·) else none
 
+/-- a literal name: no NUL and none of the pattern characters `{ * #` in front of `:` -/
+def LitName (n : Bytes) : Prop := ∀ c ∈ lit n, c ≠ 0 ∧ c ≠ 123 ∧ c ≠ 42 ∧ c ≠ 35
+
+/-- row `i` of the table `ps` is `p`, all names of the table are literal, `p`'s own
+    name is non-empty and does not begin with `/`, and no other row's name is a prefix
+    of `p`'s or prefixed by it (names compared up to `:`) -/
+def Level (ps : List PortT) (i : Nat) (p : PortT) : Prop :=
+  ps[i]? = some p ∧ (∀ q ∈ ps, LitName q.name) ∧ lit p.name ≠ [] ∧ hd (lit p.name) ≠ SLASH ∧
+  ∀ j q, ps[j]? = some q → j ≠ i → ¬ lit q.name <+: lit p.name ∧ ¬ lit p.name <+: lit q.name
+
+/-- the hypothesis of the lookup theorem along one index path: `Level` at every table
+    on the way, and every port that is descended into has a name ending in `/` -/
+def Unamb : List PortT → List Nat → Prop
+  | _, [] => False
+  | ps, [i] => ∃ p, Level ps i p
+  | ps, i :: j :: ix =>
+    ∃ p, Level ps i p ∧ (lit p.name).getLast? = some SLASH ∧ Unamb p.children (j :: ix)
+
+/-- one table: all names literal, non-empty, not beginning with `/`; a port with a
+    sub-table has a name ending in `/`; no row's name is a prefix of another row's
+    (names compared up to `:`; in particular no duplicates) -/
+def TableOK (ps : List PortT) : Prop :=
+  (∀ q ∈ ps, LitName q.name ∧ lit q.name ≠ [] ∧ hd (lit q.name) ≠ SLASH ∧
+     (q.hasPorts = true → (lit q.name).getLast? = some SLASH)) ∧
+  ∀ (i j : Nat) (p q : PortT), ps[i]? = some p → ps[j]? = some q → i ≠ j → ¬ lit p.name <+: lit q.name
+
+mutual
+def SubTablesOK : List PortT → Prop
+  | [] => True
+  | p :: r => PortOK p ∧ SubTablesOK r
+def PortOK : PortT → Prop
+  | .mk _ _ _ cs => TableOK cs ∧ SubTablesOK cs
+end
+
+/-- "no sibling's name is a prefix of another's", for every table of the tree -/
+def TreeOK (ps : List PortT) : Prop := TableOK ps ∧ SubTablesOK ps
+
 end Rtosc.Path
